@@ -13,6 +13,7 @@ import (
 	"net"
 	"os"
 	"path/filepath"
+	"runtime"
 	"strings"
 	"sync/atomic"
 	"syscall"
@@ -43,10 +44,10 @@ func tmpDir() string {
 // actions between two messages
 const (
 	aNone = iota
-	aFIN      // sink closes the connection (FIN)
-	aRST      // sink resets the connection (SO_LINGER 0)
-	aDown     // sink listener goes away (and the connection is reset): redial is refused
-	aUp       // sink listener comes back
+	aFIN  // sink closes the connection (FIN)
+	aRST  // sink resets the connection (SO_LINGER 0)
+	aDown // sink listener goes away (and the connection is reset): redial is refused
+	aUp   // sink listener comes back
 	nActions
 )
 
@@ -87,64 +88,171 @@ func tcpState(c net.Conn) int {
 	return st
 }
 
+// producerIdle: the producer goroutine is parked in its channel receive inside inputMsg, i.e. it has
+// finished (delivered or given up on) every message handed over so far. Read off the runtime's own
+// goroutine dump - a state barrier, not a timing assumption.
+func producerIdle() bool {
+	buf := make([]byte, 1<<16)
+	n := runtime.Stack(buf, true)
+	for _, g := range strings.Split(string(buf[:n]), "\n\n") {
+		if strings.Contains(g, "producer.(*RawSocket).inputMsg") {
+			return strings.Contains(strings.SplitN(g, "\n", 2)[0], "[chan receive")
+		}
+	}
+	return true // inputMsg has returned
+}
+
+func waitIdle() bool {
+	for k := 0; k < 100000; k++ {
+		if producerIdle() {
+			return true
+		}
+		time.Sleep(100 * time.Microsecond)
+	}
+	return false
+}
+
+// sendQueueEmpty: every octet the producer wrote on its current connection has been acknowledged by
+// the peer's kernel (SIOCOUTQ == 0), i.e. it sits in the sink's receive queue or has been read.
+func sendQueueEmpty(c net.Conn) bool {
+	tc, ok := c.(*net.TCPConn)
+	if !ok {
+		return true
+	}
+	rc, err := tc.SyscallConn()
+	if err != nil {
+		return true
+	}
+	empty := true
+	rc.Control(func(fd uintptr) {
+		var n int32
+		_, _, e := syscall.Syscall(syscall.SYS_IOCTL, fd, 0x5411 /* TIOCOUTQ */, uintptr(unsafe.Pointer(&n)))
+		if e == 0 && n > 0 {
+			empty = false
+		}
+	})
+	return empty
+}
+
+// settle is the barrier used before a fault and before the final comparison: wait (kernel state,
+// not time) until nothing the producer wrote is still in flight, then read everything that arrived.
+func (s *sink) settle(p *producer.Producer) {
+	if pc := producer.VerifConn(p); pc != nil {
+		for k := 0; k < 10000 && tcpState(pc) == 1 && !sendQueueEmpty(pc); k++ {
+			s.drain(0) // keep the receive window open for large messages
+			time.Sleep(200 * time.Microsecond)
+		}
+	}
+	s.drain(0)
+}
+
 // sink: a TCP listener whose accepted connections are read by the harness
 type sink struct {
-	addr  string
-	ln    net.Listener
-	conns []net.Conn // accepted, in order
-	bufs  [][]byte   // bytes received per connection
+	addr          string
+	ln            net.Listener
+	conns         []net.Conn // accepted, in order
+	bufs          [][]byte   // bytes received per connection
+	lastAcceptErr error
+}
+
+var portCounter int
+
+// ownPort hands out ports from a range that belongs to this worker process alone and lies below the
+// kernel's ephemeral range: a producer that keeps re-dialling a sink that is down must never reach
+// the sink of another case (another process would otherwise get the freed ephemeral port).
+func ownPort() int {
+	portCounter++
+	return 12000 + int(mck.Shard)*600 + portCounter%600
 }
 
 func newSink() *sink {
-	ln, err := net.Listen("tcp4", "127.0.0.1:0")
-	if err != nil {
-		panic(err)
+	for k := 0; k < 600; k++ {
+		ln, err := net.Listen("tcp4", fmt.Sprintf("127.0.0.1:%d", ownPort()))
+		if err == nil {
+			return &sink{addr: ln.Addr().String(), ln: ln}
+		}
 	}
-	return &sink{addr: ln.Addr().String(), ln: ln}
+	panic("no free port in this worker's range")
 }
 
-func (s *sink) acceptPending(wait time.Duration) {
+// acceptNow accepts every connection that sits in the backlog, without any deadline (the listener
+// descriptor is non-blocking: EAGAIN means the backlog is empty).
+func (s *sink) acceptNow() {
 	if s.ln == nil {
 		return
 	}
+	rc, err := s.ln.(*net.TCPListener).SyscallConn()
+	if err != nil {
+		return
+	}
 	for {
-		s.ln.(*net.TCPListener).SetDeadline(time.Now().Add(wait))
-		c, err := s.ln.Accept()
+		nfd := -1
+		rc.Control(func(fd uintptr) {
+			n, _, e := syscall.Accept4(int(fd), syscall.SOCK_CLOEXEC)
+			if e == nil {
+				nfd = n
+			}
+		})
+		if nfd < 0 {
+			return
+		}
+		f := os.NewFile(uintptr(nfd), "sink-conn")
+		c, err := net.FileConn(f)
+		f.Close()
 		if err != nil {
 			return
 		}
 		s.conns = append(s.conns, c)
 		s.bufs = append(s.bufs, nil)
-		wait = time.Millisecond
 	}
 }
 
-// drain reads whatever has arrived on every open connection (waits up to w for the first byte
-// only when expectMore is set)
-func (s *sink) drain(expect int) {
-	deadline := time.Now().Add(5 * time.Second)
+// acceptPending waits (kernel readiness, generous limit) until at least one connection has been
+// accepted in total, then takes whatever else is pending.
+func (s *sink) acceptPending(wait time.Duration) {
+	deadline := time.Now().Add(wait)
 	for {
-		total := 0
-		for i, c := range s.conns {
-			if c == nil {
-				total += len(s.bufs[i])
-				continue
-			}
-			buf := make([]byte, 1<<20)
-			for {
-				c.SetReadDeadline(time.Now().Add(2 * time.Millisecond))
-				n, err := c.Read(buf)
-				s.bufs[i] = append(s.bufs[i], buf[:n]...)
-				if err != nil {
-					break
-				}
-			}
-			total += len(s.bufs[i])
-		}
-		if total >= expect || time.Now().After(deadline) {
+		s.acceptNow()
+		if len(s.conns) > 0 || time.Now().After(deadline) {
 			return
 		}
-		s.acceptPending(time.Millisecond)
+		time.Sleep(200 * time.Microsecond)
+	}
+}
+
+// readNow appends everything that is in the connection's receive queue (non-blocking reads, no deadline).
+func readNow(c net.Conn, dst []byte) []byte {
+	tc, ok := c.(*net.TCPConn)
+	if !ok {
+		return dst
+	}
+	rc, err := tc.SyscallConn()
+	if err != nil {
+		return dst
+	}
+	buf := make([]byte, 1<<18)
+	for {
+		n := 0
+		rc.Control(func(fd uintptr) {
+			k, e := syscall.Read(int(fd), buf)
+			if e == nil && k > 0 {
+				n = k
+			}
+		})
+		if n <= 0 {
+			return dst
+		}
+		dst = append(dst, buf[:n]...)
+	}
+}
+
+// drain reads whatever has arrived on every open connection.
+func (s *sink) drain(expect int) {
+	s.acceptNow()
+	for i, c := range s.conns {
+		if c != nil {
+			s.bufs[i] = readNow(c, s.bufs[i])
+		}
 	}
 }
 
@@ -269,9 +377,18 @@ func runTCPCase(c *mck.Ctx, fc faultCase) {
 	p.Topic = "t"
 	done := make(chan error, 1)
 	go func() { done <- p.Run() }()
-	s.acceptPending(2 * time.Second)
+	for k := 0; k < 10 && len(s.conns) == 0; k++ {
+		s.acceptPending(2 * time.Second)
+		select {
+		case err := <-done:
+			// setup failed (it logs and returns the error): not a delivery matter, but the harness cannot go on
+			fmt.Fprintf(os.Stderr, "prod harness: Producer.Run returned before connecting: %v (case %s)\n", err, fc.String())
+			os.Exit(2)
+		default:
+		}
+	}
 	if len(s.conns) != 1 {
-		c.Violation("producer:no-initial-connection", "the producer did not connect to the sink", desc())
+		c.Violation("producer:no-initial-connection", fmt.Sprintf("the producer did not connect to the sink within 20 s (connections=%d, last accept error: %v)", len(s.conns), s.lastAcceptErr), desc())
 		return
 	}
 	expectBytes := 0
@@ -279,10 +396,15 @@ func runTCPCase(c *mck.Ctx, fc faultCase) {
 	handed := 0
 	for i, m := range msgs {
 		if i > 0 {
-			s.acceptPending(time.Millisecond) // a connection the producer re-dialled is in the backlog
+			// the previous message has been dealt with completely before anything else happens
+			if !waitIdle() {
+				c.Violation("producer:stuck", fmt.Sprintf("the producer was still busy with message %d after 10 s", i), desc())
+				return
+			}
+			s.acceptNow() // a connection the producer re-dialled is in the backlog
 			switch fc.actions[i] {
 			case aFIN, aRST:
-				s.drain(0)
+				s.settle(p)
 				s.closeConns(fc.actions[i] == aRST)
 				// barrier: the producer's socket has seen the FIN / RST
 				if pc := producer.VerifConn(p); pc != nil {
@@ -294,7 +416,7 @@ func runTCPCase(c *mck.Ctx, fc faultCase) {
 					}
 				}
 			case aDown:
-				s.drain(0)
+				s.settle(p)
 				s.down()
 				s.closeConns(true)
 				sinkUp = false
@@ -328,8 +450,8 @@ func runTCPCase(c *mck.Ctx, fc faultCase) {
 		c.Violation("producer:does-not-return", "Run did not return after the channel was closed", desc())
 		return
 	}
-	s.acceptPending(time.Millisecond)
-	s.drain(0)
+	s.acceptNow()
+	s.settle(p)
 	// oracle: per connection, split at newline; an unterminated tail of a connection is not a message
 	var got [][]byte
 	for _, b := range s.bufs {
@@ -393,7 +515,15 @@ func runTCPCase(c *mck.Ctx, fc faultCase) {
 		}
 	}
 	if len(lost) > downtime+2*nf {
-		c.Violation("producer:tcp:gap", fmt.Sprintf("%d of %d messages lost (%v) with %d fault(s) and %d message(s) handed over while the sink was down", len(lost), len(msgs), lost, nf, downtime), desc())
+		dd := desc().(map[string]interface{})
+		var sizes []int
+		for _, b := range s.bufs {
+			sizes = append(sizes, len(b))
+		}
+		dd["octets_per_connection"] = sizes
+		dd["errors_counted"] = atomic.LoadUint64(&ec)
+		dd["sink_addr"] = s.addr
+		c.Violation("producer:tcp:gap", fmt.Sprintf("%d of %d messages lost (%v) with %d fault(s) and %d message(s) handed over while the sink was down", len(lost), len(msgs), lost, nf, downtime), dd)
 		return
 	}
 	if nf == 0 && atomic.LoadUint64(&ec) != 0 {
@@ -403,6 +533,13 @@ func runTCPCase(c *mck.Ctx, fc faultCase) {
 	c.Transitions(uint64(len(msgs)))
 	c.States(1)
 	c.Outcome(fmt.Sprintf("lost=%d", len(lost)))
+	if len(lost) == 6 && os.Getenv("VERIF_SLOW") != "" {
+		var sizes []int
+		for _, b := range s.bufs {
+			sizes = append(sizes, len(b))
+		}
+		fmt.Fprintf(os.Stderr, "lost6: %s sizes=%v ec=%d\n", fc.String(), sizes, ec)
+	}
 	if c.Idx%97 == 0 {
 		c.Sample(func() interface{} {
 			d := desc().(map[string]interface{})
@@ -426,8 +563,12 @@ func udpSpace(tier string) mck.Space {
 			return map[string]interface{}{"protocol": "udp", "sink_down_mask": fmt.Sprintf("%05b", d[0]), "retry-max": d[1], "messages": d[2]}
 		}
 		c.SetCase(desc)
-		ln, err := net.ListenUDP("udp4", &net.UDPAddr{IP: net.IPv4(127, 0, 0, 1)})
-		if err != nil {
+		var ln *net.UDPConn
+		var err error
+		for k := 0; k < 600 && ln == nil; k++ {
+			ln, err = net.ListenUDP("udp4", &net.UDPAddr{IP: net.IPv4(127, 0, 0, 1), Port: ownPort()})
+		}
+		if ln == nil {
 			panic(err)
 		}
 		addr := ln.LocalAddr().(*net.UDPAddr)
@@ -452,10 +593,19 @@ func udpSpace(tier string) mck.Space {
 				return
 			}
 			buf := make([]byte, 1<<17)
+			rc, err := ln.SyscallConn()
+			if err != nil {
+				return
+			}
 			for {
-				ln.SetReadDeadline(time.Now().Add(3 * time.Millisecond))
-				n, _, err := ln.ReadFromUDP(buf)
-				if err != nil {
+				n := -1
+				rc.Control(func(fd uintptr) {
+					k, _, e := syscall.Recvfrom(int(fd), buf, syscall.MSG_DONTWAIT)
+					if e == nil {
+						n = k
+					}
+				})
+				if n < 0 {
 					return
 				}
 				got = append(got, append([]byte{}, buf[:n]...))
@@ -467,6 +617,7 @@ func udpSpace(tier string) mck.Space {
 				continue // larger than a UDP datagram: outside the udp configuration
 			}
 			if i > 0 {
+				waitIdle()
 				down := d[0]&(1<<(i-1)) != 0
 				if down && ln != nil {
 					read()
@@ -497,6 +648,10 @@ func udpSpace(tier string) mck.Space {
 			return
 		}
 		read()
+		for k := 0; k < 25000 && d[0] == 0 && len(got) < sent; k++ { // kernel delivery, generous limit
+			time.Sleep(200 * time.Microsecond)
+			read()
+		}
 		j := 0
 		for _, g := range got {
 			found := false
